@@ -6,7 +6,7 @@
    scalars, every number of molecules, modes and levels: the bookkeeping of the vibrational state space and
    the product structure of all Hamiltonian and dipole elements. *)
 From Coq Require Import ZArith List Bool Arith Lia.
-From QV Require Import Base.Alg Base.Sums Base.Mat Model.C03 Proofs.C03 Model.C10 Proofs.C10 Model.C10x Proofs.C10x.
+From QV Require Import Base.Alg Base.Sums Base.Mat Model.C03 Proofs.C03 Model.C10 Proofs.C10 Model.C10x Proofs.C10x Proofs.C10store.
 Import ListNotations.
 
 (* Vibrational signatures of one electronic state (numpy.ndindex over the declared level counts), for every
@@ -120,6 +120,15 @@ Proof.
 Qed.
 Print Assumptions c10_vibrational_modes_follow_the_electronic_state.
 
+(* The look-up table of shift-operator matrices (ho.py fcstorage: two parallel lists, look-up by first index): for EVERY sequence of
+   requests made by fc_factor on a table that starts empty, each request is answered with the matrix computed for its own shift -
+   the table implements the function shift |-> matrix that the factorisation theorems above take as their Franck-Condon oracle. *)
+Theorem c10_fc_table_is_function_of_shift :
+  forall (K V : Type) (keqb : K -> K -> bool), (forall a b, keqb a b = true <-> a = b) ->
+  forall (f : K -> V) (ks : list K), serve keqb f ks st_new = map (fun k => Some (f k)) ks.
+Proof. exact table_is_function_of_shift. Qed.
+Print Assumptions c10_fc_table_is_function_of_shift.
+
 (* ---------------- non-vacuity ---------------- *)
 Example c10_example_ndindex :
   ndindex [2; 3] = [[0;0]; [0;1]; [0;2]; [1;0]; [1;1]; [1;2]] /\ rank [2; 3] [1; 1] = 4 /\ ndindex [] = [[]] /\
@@ -138,3 +147,8 @@ Example c10_example_vibmodes :
   vibmodes_of (nat * nat * nat) (fun n a l => (n, a, l)) (fun n => match n with 0 => 1 | 1 => 0 | _ => 2 end) 3 [1; 0; 1]
   = [(0, 0, 1); (2, 0, 1); (2, 1, 1)].
 Proof. vm_compute. reflexivity. Qed.
+
+(* the hypothesis of c10_fc_table_is_function_of_shift is met by Nat.eqb; three requests, the second one repeated *)
+Example c10_example_fc_table :
+  (forall a b, Nat.eqb a b = true <-> a = b) /\ serve Nat.eqb (fun k => 10 * k) [2; 5; 2] st_new = [Some 20; Some 50; Some 20].
+Proof. split; [exact Nat.eqb_eq | vm_compute; reflexivity]. Qed.
